@@ -1,7 +1,7 @@
 # Stated bounds per property and tier (copied into the evidence files).
 BOUNDS = {
     "C07": {
-        "all": "operands: full-width symbolic int64/uint64/int32(char)/float64 payloads (no value bound); "
+        "all": "self: (op x x) and (== a a) with a an array holding x, x bound to one object of each numeric kind; operands: full-width symbolic int64/uint64/int32(char)/float64 payloads (no value bound); "
                "case split: 4x4 type pairs x 6 comparison operators; + - * on {int,char,float}^2 and uint64^2; "
                "+ - * / on float x uint64 pairs; / on int^2, uint64^2 and mixed float pairs; mod on int^2. Outside: ** (libm pow), "
                "int-vs-uint64 arithmetic and float-vs-uint64 comparison (unspecified by the statement), time operands, n-ary (>2) calls, bit operations.",
@@ -23,7 +23,7 @@ BOUNDS = {
                         "outside: str2sym/gensym at script level through the reader, names longer than the bound, counters beyond the bound"],
     },
     "C01": {
-        "quick": "stack kernel: sizes 0..3, symbolic n>=0, 6 operations; forms: 38 heads x <=2 arguments from 12 shapes (symbolic ints inside); text: all byte strings of length 1..2; infix: token sequences of <=3 tokens over a 24-token vocabulary and go-style for headers; decls (standard setup): 22 declaration builders/operators x <=2 arguments from 18 shapes (labels a: b: zz:, type names, declared names, arrays of labelled pairs, field/func forms), and calls of a declared typed func / struct constructor / instance / variable with <=4 arguments from {a: b: zz: int string} at 3 call sites; prefixes: every proper prefix (cut at character boundaries) of 18 feature texts, then 4 further evaluations and Clear. Step budget 400k SSA steps per evaluation (exhausting it is accepted: non-terminating programs).",
+        "quick": "stack kernel: sizes 0..3, symbolic n>=0, 6 operations; forms: 38 heads x <=2 arguments from 12 shapes (symbolic ints inside); text: all byte strings of length 1..2; infix: token sequences of <=3 tokens over a 24-token vocabulary and go-style for headers; decls (standard setup): 22 declaration builders/operators x <=2 arguments from 18 shapes (labels a: b: zz:, type names, declared names, arrays of labelled pairs, field/func forms), and calls of a declared typed func / struct constructor / instance / variable with <=4 arguments from {a: b: zz: int string} at 3 call sites; prefixes: every proper prefix (cut at character boundaries) of 18 feature texts, then 4 further evaluations and Clear; selectors: 13 index/slice/field targets on arrays, strings and hashes with unconstrained symbolic i, j x 7 uses (value, = += ++, operand, def, self-assignment). Step budget 400k SSA steps per evaluation (exhausting it is accepted: non-terminating programs).",
         "thorough": "forms and builders with <=3 arguments; text: all byte strings of length 1..3; infix: <=4 tokens.",
         "assumptions": ["vFormatOpaque: message texts mentioning symbolic numbers are placeholders", "outside: texts longer than the bound, process exit status of cmd/zygo, cyclic data printing, the token-queue harness of DESIGN §6 (not built)"],
     },
@@ -34,69 +34,69 @@ BOUNDS = {
                         "outside: longer texts, two or more cuts, cuts inside the UTF-8 encoding of one character, unfinished character literals in the moreinput alphabet, the REPL's liner loop"],
     },
     "C02": {
-        "quick": "expr: depth<=1 over 11 forms (atoms: symbolic int, global a, possibly-unbound x); nested: 12 outer forms x depth-1 expression in one operand position; loops: 8 shapes, bound n in [0,3], break/continue index symbolic; calls: 15 shapes (incl. map/apply over lists and arrays, elements on which the function fails, nested maps); recursion: a self-recursive function with its recursive call in 11 kinds of position (tail, non-final and/or operand, arithmetic operand, let binding, non-final statement, cond test, argument of a tail self call, ...) x 2 guards x 9 outer x 3 (thorough 9) inner tail-context wrappers, depth n in 0..3. Operands assumed inside +-2^31 (C07 owns the boundaries). Reference evaluator unwinding bound 4 iterations / 200 calls.",
+        "quick": "expr: depth<=1 over 11 forms (atoms: symbolic int, global a, possibly-unbound x); nested: 12 outer forms x depth-1 expression in one operand position; loops: 8 shapes, bound n in [0,3], break/continue index symbolic; calls: 15 shapes (incl. map/apply over lists and arrays, elements on which the function fails, nested maps); truthiness: 23 values (ints, floats incl. 0.0/-0.0/NaN, strings, arrays, hashes, nil, booleans, chars, uint64, symbols, functions, computed values) x 7 test positions (cond, and, or, not, for test, parameter, infix if); recursion: a self-recursive function with its recursive call in 11 kinds of position (tail, non-final and/or operand, arithmetic operand, let binding, non-final statement, cond test, argument of a tail self call, ...) x 2 guards x 9 outer x 3 (thorough 9) inner tail-context wrappers, depth n in 0..3. Operands assumed inside +-2^31 (C07 owns the boundaries). Reference evaluator unwinding bound 4 iterations / 200 calls.",
         "thorough": "expr depth<=2.",
         "assumptions": ["oracle: the reference evaluator in harness/zz_verif_eval.go encoding Appendix A of DESIGN.md", "outside: surface syntax (ASTs are built directly), strings/hashes as operands, infix, deeper nesting"],
     },
     "C04": {
-        "all": "the C02 shapes (expr depth<=1, nested, loops, calls) + together; decls/idle: 47 programs of the full surface language in a sandbox with the standard setup (struct, var, func, method, interface, package incl. nested and with loops, defmac at top level/in functions/in loops, macexpand, multiple assignment, mdef, range over hashes and arrays with break/continue, infix blocks with :=, if/else, go-style for incl. labelled break/continue and range, indexing/slicing, eval/apply/map/expectError, closures) with a symbolic integer hole and a symbolic loop bound in 0..3, evaluated form by form, and evaluated 3 times over in one interpreter (idle growth); only evaluations that succeed. Outside: import/req builders (need files), programs outside the table, the static stack-height pass of DESIGN §6 (not built).",
+        "all": "the C02 shapes (expr depth<=1, nested, loops, calls) + together; decls/idle: 51 programs of the full surface language in a sandbox with the standard setup (struct, var, func with and without body called positionally and by name, method, interface, package incl. nested and with loops, defmac at top level/in functions/in loops, macexpand, multiple assignment, mdef, range over hashes and arrays with break/continue, infix blocks with :=, if/else, go-style for incl. labelled break/continue and range, indexing/slicing, eval/apply/map/expectError, closures) with a symbolic integer hole and a symbolic loop bound in 0..3, evaluated form by form, and evaluated 3 times over in one interpreter (idle growth); only evaluations that succeed. Outside: import/req builders (need files), programs outside the table, the static stack-height pass of DESIGN §6 (not built).",
         "assumptions": ["reads the unexported stacks of Zlisp (datastack, linearstack, addrstack, loopstack) from in-package harness code injected by overlay"],
     },
     "C05": {
-        "all": "failure plan of 4 symbolic Bools (k-th host call fails), failure kind in {error return, Go panic}; shapes: C02 expr depth<=1, loops, calls; compile: 3 malformed forms x 24 positions (and/or/cond arms and tests, begin, let/letseq bindings and bodies, def/set, for init/test/advance/body, nested loops, function body, call argument, macro template, array literal); lazy: 10 programs (lazy arguments that outlive the call and are forced again later, forcing inside map/apply callbacks, nested calls) evaluated form by form - a failure does not end the sequence - against the reference evaluator under the same plan; parse: 10 bad texts; prefixes: every proper prefix of 18 feature texts as the failing text, 7 follow-up texts compared with a twin interpreter. Follow-up battery: 8 names, (+ 1 2), empty input.",
+        "all": "failure plan of 4 symbolic Bools (k-th host call fails), failure kind in {error return, Go panic}; shapes: C02 expr depth<=1, loops, calls; compile: 3 malformed forms x 24 positions (and/or/cond arms and tests, begin, let/letseq bindings and bodies, def/set, for init/test/advance/body, nested loops, function body, call argument, macro template, array literal); lazy: 10 programs (lazy arguments that outlive the call and are forced again later, forcing inside map/apply callbacks, nested calls) evaluated form by form - a failure does not end the sequence - against the reference evaluator under the same plan; definition: the malformed forms at the 18 eagerly compiled positions inside a function that is defined (3 definers) and never called - the definition must fail and bind nothing; parse: 10 bad texts; prefixes: every proper prefix of 18 feature texts as the failing text, 7 follow-up texts compared with a twin interpreter. Follow-up battery: 8 names, (+ 1 2), empty input.",
         "assumptions": ["outside: failures inside eval/macro expansion at depth > 1, deeper programs"],
     },
     "C03": {
-        "quick": "24 programs with 3 symbolic holes (recursion depth hole in 0..2); grammar bodies of depth<=1 over 7 forms x 3 skeletons (function body, returned closure, closure two levels below its creator); blocks: 5 block kinds (newScope, let with/without bindings, letseq, function body) x all 6 orders of {closure definition, def of the name it uses, definition of a setter closure}, closures called inside the block and after the creator returned.",
+        "quick": "28 programs with 3 symbolic holes (recursion depth hole in 0..2); grammar bodies of depth<=1 over 7 forms and 4 atoms (x, y, a literal, and z which only the caller binds) x 3 skeletons (function body, returned closure, closure two levels below its creator); blocks: 5 block kinds (newScope, let with/without bindings, letseq, function body) x all 6 orders of {closure definition, def of the name it uses, definition of a setter closure}, closures called inside the block and after the creator returned.",
         "thorough": "grammar bodies of depth<=2 (about 230k programs, ~5 min).",
         "assumptions": ["oracle: reference evaluator with linked static frames", "outside: deeper nesting, packages, macros"],
     },
     "C09": {
-        "all": "9x9 wrapper combinations; counter symbolic >= 3 (space); n in 0..3 (invisible); positions: the recursion grammar of C02 (11 call positions x 2 guards x 9 x 3/9 wrappers, n in 0..3) against the reference evaluator, stacks at rest afterwards; callsites: fixed and variadic tail-recursive functions (2+4 cores x 9 wrappers) reached by 7 routes (direct, alias, caller parameter or let-local named like the function, passed as argument, from a closure); rebound: the same functions called through an alias after their global name was rebound to a number (error or the self-recursive value accepted; a run that does not return within 2M steps is a violation). Mutual recursion is not optimised by design and is outside.",
+        "all": "9x9 wrapper combinations; counter symbolic >= 3 (space); n in 0..3 (invisible); positions: the recursion grammar of C02 (11 call positions x 2 guards x 9 x 3/9 wrappers, n in 0..3) against the reference evaluator, stacks at rest afterwards; callsites: fixed and variadic tail-recursive functions (2+4 cores x 9 wrappers) reached by 7 routes (direct, alias, caller parameter or let-local named like the function, passed as argument, from a closure); rebound: the same functions called through an alias after their global name was rebound to a number (error or the self-recursive value accepted; a run that does not return within 2M steps is a violation); hidden: closures made by macros inside a tail-recursive body (2 makers x 9 wrappers, n in 0..3) against the written-out fn in a twin interpreter, and 3 bodies with a def that runs in some iterations only. Mutual recursion is not optimised by design and is outside.",
         "assumptions": ["the inductive argument: depths at the 2nd and 3rd arrival are equal for an arbitrary (symbolic) counter and accumulator, and the VM is deterministic in (code, depths, arguments)"],
     },
     "C15": {
-        "quick": "templates: top list/array of 1..3 elements, elements from 10 kinds (int, symbol, ~v, ~@l, ~(+ v 1), (), [], string, bool, (quote q)) (depth 0); splice list length 0..2; macros: 11 macros (incl. expansions containing break, continue, a let around the body, a tail self call) x 9 call sites (top level, function body, loop body, let operand, tail position, let/newScope inside a loop, nested loops, letseq inside let inside a function).",
+        "quick": "templates: top list/array of 1..3 elements, elements from 12 kinds (int, symbol, ~v, ~@l, ~(+ v 1), (), [], string, bool, (quote q), nested ^(b ~v), nested ^[~@l lit]) (depth 0); splice list length 0..2; macros: 12 macros (incl. a macro-defining macro) (incl. expansions containing break, continue, a let around the body, a tail self call) x 9 call sites (top level, function body, loop body, let operand, tail position, let/newScope inside a loop, nested loops, letseq inside let inside a function).",
         "thorough": "elements may be nested lists/arrays of 1..3 elements (depth 1).",
         "assumptions": ["outside: hash templates, reader sugar ^ ~ ~@ (ASTs are built directly; the reader is C13's subject), macexpand"],
     },
     "C16": {
-        "all": "20 bodies (incl. force/substitute in 5 orders and 5 self-recursive ones: tail self call, non-tail, under a let, substitute after recursion, lazy second parameter) x 11 routes with 3 symbolic holes; 7 strictness programs.",
+        "all": "20 bodies (incl. force/substitute in 5 orders and 5 self-recursive ones: tail self call, non-tail, under a let, substitute after recursion, lazy second parameter) x 15 routes (incl. apply/map handing on list and symbol values) with 3 symbolic holes; 7 strictness programs.",
         "assumptions": ["outside: typed func declarations, map route for lazy functions"],
     },
     "C06": {
-        "quick": "algorithm: 2 operators (3 operands); table: 17x17 operator pairs; meaning: 8x8 operator pairs over {+ - * < <= == and or}, symbolic int operands; selectors: a[e], a[e1:e2], a[:e], a[e:], a[:] with bounds from 6 compound expressions over symbolic i in [-1,3], j in [-1,5] against Go-style indexing/slicing of a 4-element array, arr[e] op k op' arr[e'] (9 operator pairs), arr[e] = v + 1, h.k + i * h.m, (dbl arr[e]) + i * 2; spacing: A op B written with blanks on both sides / left only / right only / none, and A op B op' C without blanks (A in 4 operand kinds, B, C in 4, 11 operators), expansion and value equal to the fully spaced form (operator+operand spellings that fuse into a longer operator, and a blank-then-sign literal, excluded).",
+        "quick": "algorithm: 2 operators (3 operands); table: 17x17 operator pairs; meaning: 8x8 operator pairs over {+ - * < <= == and or}, symbolic int operands; selectors: a[e], a[e1:e2], a[:e], a[e:], a[:] with bounds from 6 compound expressions over symbolic i in [-1,3], j in [-1,5] against Go-style indexing/slicing of a 4-element array, arr[e] op k op' arr[e'] (9 operator pairs), arr[e] = v + 1, h.k + i * h.m, (dbl arr[e]) + i * 2, recs[e].b as right operand / argument / condition / assignment target, h2.list[e]; spacing: A op B written with blanks on both sides / left only / right only / none, and A op B op' C without blanks (A in 4 operand kinds, B, C in 4, 11 operators), expansion and value equal to the fully spaced form (operator+operand spellings that fuse into a longer operator, and a blank-then-sign literal, excluded).",
         "thorough": "algorithm: 3 operators (4 operands).",
         "assumptions": ["equal binding powers with different associativity are excluded (no defined meaning); and/or among themselves are excluded from the table check (associativity not documented)",
                         "outside: if/else and go-style for lowering (C04/C01 run them, no precedence oracle), comma; out-of-range indices/slices only have to return (value or error)"],
     },
     "C08": {
-        "quick": "every name x arity 0..1 x 7 argument shapes (canary secret file path, shell command string, touch-file path, environment variable name, 'touch', int, quoted symbol) x 7 routes (direct, eval, macro body, macro expansion, alias, apply, expectError); the three canary strings also wrapped in an array, a list and a nested array (routes direct, eval, macro expansion); renamed: every name aliased under each outside-world function name the sandbox does not bind (keys of SystemFunctions) and called through a variable holding the quoted alias, with (hash, touch-file path) and (touch-file path).",
+        "quick": "every name x arity 0..1 x 7 argument shapes (canary secret file path, shell command string, touch-file path, environment variable name, 'touch', int, quoted symbol) x 7 routes (direct, eval, macro body, macro expansion, alias, apply, expectError); the three canary strings also wrapped in an array, a list and a nested array (routes direct, eval, macro expansion); renamed: every name aliased under each outside-world function name the sandbox does not bind (keys of SystemFunctions) and called through a variable holding the quoted alias, with (hash, touch-file path) and (touch-file path); afterplain: an unsandboxed interpreter is set up and used first, then a sandbox with the standard setup: every name x {no argument, 4 canary arguments}, interpreters built on every path.",
         "thorough": "arity 0..2.",
         "assumptions": ["engine: every function of os, os/exec, syscall, io/ioutil, net is an effect marker returning an error (never executed); effects counted are those a native run can observe with the same canaries",
                         "outside: cmd/zygo -sandbox as a process, grammar-generated programs combining primitives, arity > 2"],
     },
     "C12": {
-        "quick": "chars < U+0250; strings of 1 rune < U+0250; ints |i| < 10^5; literals of 1..3 digits; nested shapes of 2 atoms; offsets: 21 printed values (negative numbers, signed exponents, hex, ULL, Inf/NaN, strings and chars holding '-') placed at every rune offset 0..23 (thorough 0..43) behind a prefix of complete atoms; widelits: 0x+16 hex digits, 0o+22 octal digits, 0b+64 binary digits with symbolic leading/last digits and 3 fill patterns, 10 decimal boundary spellings (2^63-1, 2^63, 2^64-1, 2^64, signed, ULL, underscores): exact value or rejected.",
+        "quick": "chars < U+0250; strings of 1 rune < U+0250; ints |i| < 10^5; literals of 1..3 digits; nested shapes of 2 atoms; offsets: 21 printed values (negative numbers, signed exponents, hex, ULL, Inf/NaN, strings and chars holding '-') placed at every rune offset 0..23 (thorough 0..43) behind a prefix of complete atoms; widelits: 0x+16 hex digits, 0o+22 octal digits, 0b+64 binary digits with symbolic leading/last digits and 3 fill patterns, 10 decimal boundary spellings (2^63-1, 2^63, 2^64-1, 2^64, signed, ULL, underscores): exact value or rejected; floats: 27 bit patterns (zeros, subnormals, neighbours of 1, 2^53, 2^63, max, infinities) and 14 values produced by arithmetic, bare and inside an array - concrete enumeration (strconv float code is not encodable), no solver verdict.",
         "thorough": "chars < U+1000; strings of 1..2 runes < U+0250; ints as quick (six or more digits: solver unknown at 30 s); offsets 0..43.",
         "assumptions": ["decimal printing of symbolic ints uses the engine's digit model", "outside: floats (strconv.FormatFloat/ParseFloat on symbolic values is not encodable), hashes through eval, symbols with unusual names, runes above the bound (the full range did not finish in 25 minutes)"],
     },
     "C11": {
-        "quick": "encode: 9 shapes; strings 'a'+r+'z' with r symbolic over the whole of Unicode (surrogates excluded); ints |i|<10^5; roundtrip (reference reader -> Go values -> real decode half): r below U+0250; msgpack: 10 shapes (scalars, nil, arrays, hashes and records with nil members, nested) through SexpToMsgpack/MsgpackToSexp with the codec boundary modelled, ints |i|<1000.",
+        "quick": "encode: 9 shapes; strings 'a'+r+'z' with r symbolic over the whole of Unicode (surrogates excluded); ints |i|<10^5; roundtrip (reference reader -> Go values -> real decode half): r below U+0250; msgpack: 10 shapes (scalars, nil, arrays, hashes and records with nil members, nested) through SexpToMsgpack/MsgpackToSexp with the codec boundary modelled, ints |i|<1000; history: encode, change a nested container in place (6 kinds of change at depth 1..2), encode again, json and msgpack routes.",
         "thorough": "roundtrip: r below U+3000.",
         "assumptions": ["the ugorji codec (reflection/unsafe) is not executed by the engine: its four entry points dispatch to a model in harness/zz_verif_codec.go (plain data only; other values are flagged); the harness's RFC 8259 reader stands in for 'a standard decoder'; native replays and the sampled-path validation run the real codec; floats are outside"],
     },
     "C17": {
-        "all": "one declaration (string, int64, float64, bool fields); (4 declared fields + 1 undeclared field name) x 8 value kinds (int, string, float, bool, array, hash, nil, empty slice) x 7 routes (hset with label / quoted symbol / [quoted symbol] key, set dot-path, infix dot assignment, infix d[%field] assignment, constructor); 25 programs incl. pointer writes and redeclaration. Outside: pointer writes, slices/pointer/struct-typed fields, JSON/msgpack decoding into records, variable rebinding (not a write to an instance).",
+        "all": "one declaration (string, int64, float64, bool fields); (4 declared fields + 1 undeclared field name) x 8 value kinds (int, string, float, bool, array, hash, nil, empty slice) x 7 routes (hset with label / quoted symbol / [quoted symbol] key, set dot-path, infix dot assignment, infix d[%field] assignment, constructor); 30 programs incl. pointer writes, redeclaration, field-less structs and instances made after a redeclaration. Outside: pointer writes, slices/pointer/struct-typed fields, JSON/msgpack decoding into records, variable rebinding (not a write to an instance).",
         "assumptions": ["int written into a float64 field is excluded (conversion rule not stated)", "nil / [] written into a declared field is not asserted either way ('accepted where the language says so'); into an undeclared field it must be rejected"],
     },
     "C18": {
-        "quick": "first rune below U+0250 (excluding space, '.', controls); depth 1..2; kinds value/function/hash/package; routes get/set.",
+        "quick": "first rune below U+0250 (excluding space, '.', controls); depth 1..2; kinds value/function/hash/package; a hash member also with the path continuing into its field; routes get/set.",
         "thorough": "first rune below U+3000.",
         "assumptions": ["nothing is asserted for names starting with a non-letter", "outside: depth 3, aliases at walker level (covered only by the scripted programs), infix assignment route with symbolic names"],
     },
     "C20": {
-        "all": "maps of at most 3 entries are permuted; larger maps are walked in insertion order and in reverse (case split per range); scenarios: symbols, decode, hashes, setup (sandbox + StandardSetup: outcome of (< 'a 'b) for 31 adjacent pairs of type/builder/builtin names), fresh (16 programs each run in three successive fresh interpreters of one process; value and error text equal), kinds (12 programs with known values in every sequence of 2..3 interpreters over {bare sandbox, sandbox+StandardSetup, full+StandardSetup}), scope printing with names differing only in case (pointers masked). Outside: registry scans by reflection, fresh OS processes, pointer printing, permutations of large maps other than the reverse.",
+        "all": "maps of at most 3 entries are permuted; larger maps are walked in insertion order and in reverse (case split per range); scenarios: symbols, decode, hashes, setup (sandbox + StandardSetup: outcome of (< 'a 'b) for 31 adjacent pairs of type/builder/builtin names), fresh (16 programs each run in three successive fresh interpreters of one process; value and error text equal), kinds (12 programs with known values in every sequence of 2..3 interpreters over {bare sandbox, sandbox+StandardSetup, full+StandardSetup}), scope printing with names differing only in case (pointers masked), error texts that name one of several offenders (undeclared named arguments, undeclared fields, unbound names) in the standard setup. Outside: registry scans by reflection, fresh OS processes, pointer printing, permutations of large maps other than the reverse.",
         "assumptions": ["the engine's maps are insertion-ordered association lists; 'every order' means every permutation of the live entries at range time"],
     },
 }
